@@ -455,6 +455,14 @@ impl World {
                 }
                 let mut m = mb.withdraw_from_account(a.account, XRD, amt).try_deposit_entire_worktop_or_abort(b.account, None);
                 m = if rng.bool() { m.lock_contingent_fee(target, dec!(2)) } else { m.lock_fee(target, dec!(2)) };
+                if rng.chance(1, 3) {
+                    // ... and on the other side of the transfer as well
+                    let other = if target == a.account { b.account } else { a.account };
+                    if other == b.account {
+                        proofs.push(b.proof());
+                    }
+                    m = if rng.bool() { m.lock_contingent_fee(other, dec!(1)) } else { m.lock_fee(other, dec!(1)) };
+                }
                 if rng.chance(2, 3) {
                     m = m.assert_worktop_contains(XRD, Decimal::MAX);
                 }
